@@ -26,10 +26,11 @@ import (
 )
 
 type c18 struct {
-	tr  *kit.Tracer
-	rng *rand.Rand
-	ctr atomic.Int64 // unique values / resource ids
-	n   int          // scenarios recorded
+	tr   *kit.Tracer
+	rng  *rand.Rand
+	ctr  atomic.Int64 // unique values / resource ids
+	n    int          // scenarios recorded
+	hung bool         // a scenario did not finish: recording stops, the history ends with `hang`
 }
 
 func (c *c18) ev(m kit.M) { c.tr.Emit(m) }
@@ -69,10 +70,13 @@ func (c *c18) run(g int, body func(p int, r *rand.Rand)) {
 	go func() { wg.Wait(); close(done) }()
 	select {
 	case <-done:
-	case <-time.After(20 * time.Second):
-		// a hang is a harness-visible fact, not a verdict: dump and abort (exit 2 upstream)
+	case <-time.After(30 * time.Second):
+		// calls that never return: every contract in SyncxTrace promises the opposite, so the
+		// history is closed with a `hang` event (which no action of the specification consumes)
+		// and recording stops; the stacks go to stderr for the report.
 		fmt.Fprintf(os.Stderr, "C18 scenario hung\n%s\n", kit.Stacks())
-		os.Exit(3)
+		c.ev(kit.M{"e": "hang"})
+		c.hung = true
 	}
 }
 
@@ -97,6 +101,10 @@ func (c *c18) singleFlight() {
 				ran = true
 				c.ev(kit.M{"e": "fnb", "p": p, "k": k})
 				jitter(r)
+				if r.Intn(8) == 0 { // the user function panics; the caller below recovers
+					c.ev(kit.M{"e": "fnp", "p": p, "k": k})
+					panic("fn panicked")
+				}
 				v := c.uniq()
 				var err error
 				if r.Intn(4) == 0 {
@@ -107,15 +115,30 @@ func (c *c18) singleFlight() {
 			}
 			jitter(r)
 			c.ev(kit.M{"e": "inv", "p": p, "k": k})
-			if r.Intn(2) == 0 {
-				val, err := sf.Do(k, fn)
-				c.ev(kit.M{"e": "ret", "p": p, "k": k, "v": encode(val.(int), err), "f": ran, "x": ran})
-			} else {
-				val, fresh, err := sf.DoEx(k, fn)
-				c.ev(kit.M{"e": "ret", "p": p, "k": k, "v": encode(val.(int), err), "f": fresh, "x": ran})
-			}
+			func() {
+				defer func() {
+					if x := recover(); x != nil {
+						c.ev(kit.M{"e": "ret", "p": p, "k": k, "v": 0, "f": ran, "x": ran, "pan": true})
+					}
+				}()
+				if r.Intn(2) == 0 {
+					val, err := sf.Do(k, fn)
+					c.ev(kit.M{"e": "ret", "p": p, "k": k, "v": encode(asInt(val), err), "f": ran, "x": ran, "pan": false})
+				} else {
+					val, fresh, err := sf.DoEx(k, fn)
+					c.ev(kit.M{"e": "ret", "p": p, "k": k, "v": encode(asInt(val), err), "f": fresh, "x": ran, "pan": false})
+				}
+			}()
 		}
 	})
+}
+
+// asInt: a waiter of a panicked execution receives the zero result (nil).
+func asInt(v any) int {
+	if v == nil {
+		return 0
+	}
+	return v.(int)
 }
 
 func (c *c18) lockedCalls() {
@@ -128,6 +151,10 @@ func (c *c18) lockedCalls() {
 			fn := func() (any, error) {
 				c.ev(kit.M{"e": "fnb", "p": p, "k": k})
 				jitter(r)
+				if r.Intn(8) == 0 {
+					c.ev(kit.M{"e": "fnp", "p": p, "k": k})
+					panic("fn panicked")
+				}
 				v := c.uniq()
 				var err error
 				if r.Intn(4) == 0 {
@@ -138,8 +165,15 @@ func (c *c18) lockedCalls() {
 			}
 			jitter(r)
 			c.ev(kit.M{"e": "inv", "p": p, "k": k})
-			val, err := lc.Do(k, fn)
-			c.ev(kit.M{"e": "ret", "p": p, "k": k, "v": encode(val.(int), err)})
+			func() {
+				defer func() {
+					if x := recover(); x != nil {
+						c.ev(kit.M{"e": "ret", "p": p, "k": k, "v": 0, "pan": true})
+					}
+				}()
+				val, err := lc.Do(k, fn)
+				c.ev(kit.M{"e": "ret", "p": p, "k": k, "v": encode(asInt(val), err), "pan": false})
+			}()
 		}
 	})
 }
@@ -657,6 +691,12 @@ func TestVerifC18Trace(t *testing.T) {
 			}
 			s.fn()
 			c.n++
+			if c.hung {
+				break
+			}
+		}
+		if c.hung {
+			break
 		}
 	}
 	if err := tr.Close(); err != nil {
